@@ -23,6 +23,10 @@ def run(model, rep, tier):
              'agreement of the report (header roles, block order, as many entries as announced)')
     c07.r1_r2_wire(ctx, rep, R1='C06.R6', R2='C06.R6')
     from . import robust
+    rep.rule('C06.R7', "'up to N': the N of the start guard (R1) is the N the user gave -- options.processes is "
+             'stored by the parser only; nothing in the package overwrites it after parsing (a cap to the CPU '
+             'count, a default for children, ...)')
+    robust.option_is_what_was_given(ctx, rep, 'C06.R7', 'processes', 'the number of layers that may run at the same time')
     robust.asserts_have_no_effects(ctx, rep, 'C06.R20', 'C06')
     rep.units['cfg'] = ctx.cfg_stats
 
